@@ -1669,6 +1669,9 @@ class SelectRowsNode(ViewRepresentation):
         self.expr = ops["expr"]
         self.decision_columns = set()
         self.expr.get_column_names(self.decision_columns)
+        unknown_cols = self.decision_columns - set(source.column_names)
+        if len(unknown_cols) > 0:
+            raise KeyError("referred to unknown columns: " + str(unknown_cols))
         ViewRepresentation.__init__(
             self,
             column_names=source.column_names,
